@@ -15,6 +15,7 @@ from .. import common, instrument as ins, mon1, w1, w2
 from . import _w2case
 
 ID = "C10"
+KNOWN_CEILING = {'k1_guard': 0.01}   # share of all evaluations a known finding may reach before it counts as a violation again
 LEVEL = "fault_enumeration"
 RULE = ("C10a: every generated well-formed backtest (W2 grammar over the stock algos; flat and nested; all cost models; both position modes) must "
         "finish bt.run and all thirteen report accessors, and every recorded number must be finite (input prices may be NaN only where the position "
@@ -230,8 +231,43 @@ def case_fault(cs, idx):
                 ok, got = False, "position opened at a bad price: %s" % own["a"].position
     elif f == "nan_price_open_position":
         data.iloc[k, 0] = np.nan
-        var = rng.choice(["backtest", "ops"])
-        if var == "backtest":
+        var = rng.choice(["backtest", "ops", "transact_flat", "fi_rebalance_flat"])
+        if var in ("transact_flat", "fi_rebalance_flat"):
+            # a quantity-based trade opens a position in a flat security on a date whose price is missing (a one-day gap)
+            from bt.core import FixedIncomeSecurity
+
+            fi = var == "fi_rebalance_flat"
+            kids = [(FixedIncomeSecurity(t) if fi else Security(t, multiplier=rng.choice([1, 5]))) for t in tk]
+            root = (FixedIncomeStrategy("s", [], children=kids) if fi else Strategy("s", [], children=kids))
+            root.use_integer_positions(integer)
+            root.setup(data)
+            for i in range(k + 1):
+                root.update(dts[i])
+                if i == 0 and not fi:
+                    root.adjust(1e6)
+                    root.update(dts[0])
+
+            def go():
+                if fi:
+                    root.rebalance(0.5, "a", base=1e5)
+                else:
+                    root.transact(rng.choice([-50, 50]), child="a")
+                root.update(dts[k])
+                for j in range(k + 1, nd):
+                    root.update(dts[j])
+                bad = nonfinite(root)
+                if bad:
+                    raise AssertionError("completed with non-finite records: %s" % bad)
+
+            try:
+                go()
+                ok, got = False, "no exception"
+            except AssertionError as e:
+                ok, got = False, str(e)[:160]
+            except Exception as e:
+                ok, got = ("latest price is NaN" in str(e) or "Cannot allocate capital" in str(e)), "%s: %s" % (type(e).__name__, str(e)[:100])
+            reached = True
+        elif var == "backtest":
             s = Strategy("s", [algos.RunOnce(), algos.SelectAll(), algos.WeighEqually(), algos.Rebalance()], children=list(tk) if rng.random() < 0.5 else None)
             t = bt.Backtest(s, data, integer_positions=integer)
             ok, got = expect(t.run, Exception, "latest price is NaN")
